@@ -500,7 +500,17 @@ def rewrite_case(rng, sess: Session):
                     sess.violation("rewrite-under-short-writes-lost-or-tore-records", {"name": name, "n": len(recs), "ci": ci, "chunk": chunk},
                                    {"raised": raised, "bytes_now": len(now_bytes), "bytes_complete": len(want), "bytes_old": len(old_bytes)})
                     return
-            rewrite_jsonl(name, before)
+            # the records may arrive as any iterable: a list, a generator, a one-shot iterator (streaming compaction)
+            feed = rng.choice(["list", "generator", "iterator", "filter"])
+            if feed == "list":
+                rewrite_jsonl(name, before)
+            elif feed == "generator":
+                rewrite_jsonl(name, (r_ for r_ in before))
+            elif feed == "iterator":
+                rewrite_jsonl(name, iter(before))
+            else:
+                rewrite_jsonl(name, filter(lambda r_: True, before))
+            sess.count("rewrites_fed_from_a_" + feed)
             b1 = open(path, "rb").read()
             try:
                 after = [json.loads(l) for l in b1.split(b"\n") if l]
@@ -989,8 +999,10 @@ def capture_case(rng, sess: Session):
                 disk = []        # model of this writer's records on disk, in order: (stream, rec)
                 n = 0
 
+                tally = {"count": 0, "seen": []}
+
                 def emit(stream, rec):
-                    (stack[-1][2] if stack else disk).append((stream, rec))
+                    (stack[-1][2] if stack else disk).append((stream, copy.deepcopy(rec)))
 
                 def check(step):
                     for stream in (f"w{w}.jsonl",):
@@ -1010,6 +1022,12 @@ def capture_case(rng, sess: Session):
                     if op == "rec":
                         stream = f"w{w}.jsonl" if arg == "own" else "shared.jsonl"
                         rec = {"w": w, "n": n}
+                        if n % 3 == 0:
+                            # one object logged again and again and updated in between (a running tally): every line carries
+                            # the value it had when it was logged
+                            tally["count"] += 1
+                            tally["seen"].append(n)
+                            rec["tally"] = tally
                         n += 1
                         append_jsonl(stream, rec)
                         emit(stream, rec)
